@@ -27,4 +27,9 @@ var Props = []*h.Prop{
 		Real:        realQuery,
 		Stub:        stubQuery,
 		Assumptions: []string{"silent damage cannot be detected (the format has no checksums): rows attributed to the damaged day are unconstrained", "the statistics clause is applied only when the metadata is intact", "length fields in damaged metadata are clamped to 64 MiB (see the C03 finding on allocation)"}},
+	{ID: "C31", Run: c31, Bubble: true,
+		Rule:        "one evaluation = K in 1..3 slots, K+1..3K+2 client goroutines issuing 1-2 queries each at drawn simulated instants through query runners sharing one semaphore; per call: success, I/O error on the interface listing (after the slot was taken), or cancellation at a drawn file-system operation; the seeded scheduler interleaves the clients at every file-system operation and (in two of three runs) advances the fake clock so that semaphore time-outs expire; checked over the recorded history: executing <= K at every step, 'too many requests' only if all K slots were held throughout the caller's waiting window, no slot held after quiescence, K fresh queries succeed, every caller returns; non-trivial = K queries were executing while another client was waiting or rejected; distinct = distinct event-log hash",
+		Real:        append([]string{"engine.QueryRunner.checkSemaphore / smeDone", "gotools/concurrency.Semaphore (TryAddFor, fake clock)"}, realQuery...),
+		Stub:        stubQuery,
+		Assumptions: []string{"every client uses its own QueryRunner (and mount alias) on the shared semaphore; the API server's single shared runner keeps per-query state, and cross-talk between concurrent different queries is not part of this property", "the distributed variant is the dist-sim part of this check"}},
 }
